@@ -507,6 +507,10 @@ pub fn pair() -> VT {
 pub fn rec_nested() -> VT {
     VT::Prod(vec![named("a", VT::Int), named("b", pair())])
 }
+/// `Int64 * Bool * Int64`: a flat product of width three with mixed component types
+pub fn triple() -> VT {
+    VT::Prod(vec![VT::Int, VT::Data(BOOL), VT::Int])
+}
 pub fn rec_flat() -> VT {
     VT::Prod(vec![named("a", VT::Int), named("b", VT::Data(BOOL))])
 }
@@ -534,6 +538,12 @@ pub fn profiles(thorough: bool) -> Vec<Profile> {
             menu: Menu { vts: vec![VT::Int, pair(), rec_nested(), rec_flat()], alias_patterns: true, ints: vec![1, 2], ..base.clone() },
             roots: vec![ret(VT::Int), ret(pair())],
             size: 7 + d,
+        },
+        Profile {
+            name: "wide-products",
+            menu: Menu { vts: vec![VT::Int, VT::Data(BOOL), triple(), VT::Data(BOX3)], datas: vec![BOOL, BOX3], ints: vec![1, 2], vars_per_type: 2, ..base.clone() },
+            roots: vec![ret(VT::Int)],
+            size: 8 + d,
         },
         Profile {
             name: "data",
